@@ -516,9 +516,10 @@ def struct_accessor_pair(repo: Repo, rep, P: str, rule: str, ci: ClassInfo, prop
             if ch == "x":
                 data.append([0] * 8)
                 continue
-            a = args[ai]
+            a = resolve_names(args[ai], single_defs(g))          # locals that name the packed expressions
+            ast.copy_location(a, args[ai])
             ai += 1
-            if isinstance(a, ast.IfExp):
+            if isinstance(a, ast.IfExp) or (isinstance(a, ast.Subscript) and isinstance(a.value, (ast.Tuple, ast.List))):
                 # marker bytes that are a function of other fields: opaque
                 bv = BV([bits.T(frozenset(["marker"]))] * 8 + [0] * (bits.W - 8))
             else:
